@@ -51,6 +51,8 @@ type storeDesc struct {
 	Host   string `json:"host,omitempty"`
 	// Labels are further store labels (disk=..., noleader=...); they take no part in placement.
 	Labels map[string]string `json:"labels,omitempty"`
+	// set by lenient(): the store accepted leaders before or after a change made in the middle of the judged call
+	acceptsLeadersLeniently bool
 }
 
 // labelProp is one entry of the reject-leader label property list.
@@ -80,6 +82,13 @@ type world struct {
 	RejectLeader []labelProp `json:"reject_leader_properties,omitempty"`
 	Evict        uint64      `json:"evict_leader_store,omitempty"` // evict-leader scheduler configured (pauses the store)
 	Grant        uint64      `json:"grant_leader_store,omitempty"` // grant-leader scheduler configured (pauses the store)
+	// EvictMore: stores added to the evict-leader scheduler later, through its HTTP handler
+	EvictMore []uint64 `json:"evict_leader_stores_added_later,omitempty"`
+	// Changes: the most recent changes applied to the running world (the description is the state after them)
+	Changes []string `json:"recent_changes,omitempty"`
+
+	rulesToggled    bool
+	replicasChanged bool
 }
 
 func (w *world) store(id uint64) *storeDesc {
@@ -157,6 +166,19 @@ type cluster struct {
 	ctx    context.Context
 	cancel context.CancelFunc
 	nextID uint64
+
+	// interception (dyn.go)
+	injectIn int
+	inject   func()
+	injected bool
+	before   *world // description when the injection was armed
+	// regions as they were before a region change injected in the middle of the current call
+	regionBefore map[uint64]*core.RegionInfo
+
+	allocMu      sync.Mutex
+	allocFailPct int
+	allocRng     *rand.Rand
+	allocFaults  int
 }
 
 func (c *cluster) close() { c.cancel() }
@@ -167,6 +189,9 @@ func newCluster(w *world) (*cluster, error) {
 	clusterMu.Lock()
 	defer clusterMu.Unlock()
 	opts := config.NewTestOptions()
+	// the default configuration enables placement rules (and the mock would build the rule manager from the default
+	// 3 replicas before the world's own settings are applied): start without, switch on below where the world says so
+	opts.SetPlacementRuleEnabled(false)
 	ctx, cancel := context.WithCancel(context.Background())
 	mc := mockcluster.NewCluster(ctx, opts)
 	// the list is configured entry by entry, in order, through the call the server's SetLabelProperty uses
@@ -245,7 +270,7 @@ func newCluster(w *world) (*cluster, error) {
 			return nil, fmt.Errorf("unknown rules mode %q", w.Rules)
 		}
 	}
-	return &cluster{Cluster: mc, w: w, ctx: ctx, cancel: cancel, nextID: 1 << 20}, nil
+	return &cluster{Cluster: mc, w: w, ctx: ctx, cancel: cancel, nextID: 1 << 20, allocRng: rand.New(rand.NewSource(int64(len(w.Stores))))}, nil
 }
 
 // regionDesc is the generated shape of one region.
@@ -336,9 +361,14 @@ func (c *cluster) refreshStore(id uint64) {
 // ---- generators ---------------------------------------------------------------------------------------------
 
 // randomWorld generates a world of 3..8 stores. At least max(2, replicas) ordinary stores are plainly up.
-func randomWorld(rng *rand.Rand, forScatter bool) *world {
+func randomWorld(rng *rand.Rand, scale int) *world {
 	w := &world{Mode: allModes[rng.Intn(len(allModes))]}
 	S := 3 + rng.Intn(6)
+	if scale == 1 {
+		S = 100 + rng.Intn(201) // around and beyond any plausible batch size of store lists
+	} else if scale > 1 {
+		S = 95 + rng.Intn(40) // schedulers are quadratic in the number of stores: around 100
+	}
 	switch x := rng.Intn(100); {
 	case x < 40:
 		w.Rules = "off"
@@ -352,6 +382,9 @@ func randomWorld(rng *rand.Rand, forScatter bool) *world {
 	if w.Rules == "tiflash" && S < 4 {
 		S = 4 + rng.Intn(5)
 	}
+	if scale > 0 && w.Rules == "custom" {
+		w.Rules = "tiflash"
+	}
 	nFlash := 0
 	if w.Rules == "tiflash" {
 		nFlash = 1
@@ -361,11 +394,17 @@ func randomWorld(rng *rand.Rand, forScatter bool) *world {
 		if S >= 8 && rng.Intn(3) == 0 {
 			nFlash = 3
 		}
+		if scale > 0 {
+			nFlash = 3 + rng.Intn(4)
+		}
 	}
 	nOrd := S - nFlash
 	// location labels: never in the "vacuous" class that classifies scatter losses (see scatter.go)
 	w.LocationLabels = rng.Intn(100) < 45
 	pHostile := []int{0, 10, 25, 40}[rng.Intn(4)]
+	if scale > 0 {
+		pHostile = []int{5, 15}[rng.Intn(2)]
+	}
 	for i := 1; i <= S; i++ {
 		sd := storeDesc{ID: uint64(i), State: stUp}
 		if i > nOrd {
@@ -402,6 +441,9 @@ func randomWorld(rng *rand.Rand, forScatter bool) *world {
 	default:
 		w.MaxReplicas = []int{3, 3, 3, 2, 5}[rng.Intn(5)]
 	}
+	if scale > 0 {
+		w.MaxReplicas = []int{5, 5, 7}[rng.Intn(3)] // with two tiflash learners: regions of 7-9 peers
+	}
 	if w.MaxReplicas > nOrd {
 		w.MaxReplicas = nOrd
 	}
@@ -425,7 +467,7 @@ func randomWorld(rng *rand.Rand, forScatter bool) *world {
 	switch w.Rules {
 	case "tiflash":
 		cnt := 1
-		if nFlash >= 2 && rng.Intn(2) == 0 {
+		if nFlash >= 2 && (rng.Intn(2) == 0 || scale > 0) {
 			cnt = 2
 		}
 		w.RuleSet = []ruleDesc{
@@ -568,7 +610,26 @@ func randomRegions(rng *rand.Rand, c *cluster, n int, firstID uint64, pBad int, 
 		}
 		weight[s.ID] = wt
 	}
+	if len(w.Stores) >= 50 {
+		// at scale everything starts on a dozen stores: scatter and the balance schedulers then have hundreds of
+		// empty targets and move many peers of one region at once
+		keep := map[uint64]bool{}
+		for _, i := range rng.Perm(len(ord))[:minInt(len(ord), 10+rng.Intn(5))] {
+			keep[ord[i]] = true
+		}
+		for _, id := range ord {
+			if !keep[id] {
+				weight[id] = 0
+			} else if weight[id] == 0 {
+				weight[id] = 1
+			}
+		}
+	}
 	lOrd, lFlash := w.wantedLearners()
+	uniform := map[uint64]int{}
+	for _, sd := range w.Stores {
+		uniform[sd.ID] = 1
+	}
 	var out []*core.RegionInfo
 	for i := 0; i < n; i++ {
 		d := &regionDesc{ID: firstID + uint64(i), SizeMB: int64(8 + rng.Intn(180))}
@@ -582,17 +643,17 @@ func randomRegions(rng *rand.Rand, c *cluster, n int, firstID uint64, pBad int, 
 		}
 		d.Voters = pickWeighted(rng, ord, weight, w.MaxReplicas, exclude)
 		if len(d.Voters) < w.MaxReplicas {
-			d.Voters = pickWeighted(rng, ord, map[uint64]int{1: 1, 2: 1, 3: 1, 4: 1, 5: 1, 6: 1, 7: 1, 8: 1}, w.MaxReplicas, nil)
+			d.Voters = pickWeighted(rng, ord, uniform, w.MaxReplicas, nil)
 		}
 		used := map[uint64]bool{}
 		for _, s := range d.Voters {
 			used[s] = true
 		}
 		if lOrd > 0 {
-			d.Learners = append(d.Learners, pickWeighted(rng, ord, map[uint64]int{1: 1, 2: 1, 3: 1, 4: 1, 5: 1, 6: 1, 7: 1, 8: 1}, lOrd, used)...)
+			d.Learners = append(d.Learners, pickWeighted(rng, ord, uniform, lOrd, used)...)
 		}
 		if lFlash > 0 {
-			d.Learners = append(d.Learners, pickWeighted(rng, flash, map[uint64]int{1: 1, 2: 1, 3: 1, 4: 1, 5: 1, 6: 1, 7: 1, 8: 1}, lFlash, nil)...)
+			d.Learners = append(d.Learners, pickWeighted(rng, flash, uniform, lFlash, nil)...)
 		}
 		// leader: a voter on a store in service
 		var cand []int
